@@ -86,8 +86,10 @@ func c16Streams(tier string) []c16Stream {
 		{Name: "crlf-G-P", Data: []byte("PING\r\nGET pk a\r\nECHO x\r\n")},
 		{Name: "lf-only-G-P", Data: []byte("PING\nGET pk a\nECHO x\n"), SameAs: "crlf-G-P"},
 		// first lines longer than any fixed look-ahead (telnet and HTTP), first letter one the sniffer cares about
-		{Name: "telnet-long-line-P", Data: []byte("PUBLISH c16long " + strings.Repeat("x", 5000) + "\r\nPING\r\n"), HTTP: false},
-		{Name: "http-long-url", Data: []byte("GET /SET+pk+long+STRING+" + strings.Repeat("y", 5000) + " HTTP/1.1\r\nHost: x\r\n\r\n"), HTTP: true},
+		{Name: "resp-long-P", Data: append(respCmd("PUBLISH", "c16long", strings.Repeat("x", 5000)), respCmd("PING")...)},
+		{Name: "telnet-long-line-P", Data: []byte("PUBLISH c16long " + strings.Repeat("x", 5000) + "\r\nPING\r\n"), SameAs: "resp-long-P"},
+		{Name: "http-short-url", Data: []byte("GET /SET+pk+long+STRING+yy HTTP/1.1\r\nHost: x\r\n\r\n"), HTTP: true},
+		{Name: "http-long-url", Data: []byte("GET /SET+pk+long+STRING+" + strings.Repeat("y", 5000) + " HTTP/1.1\r\nHost: x\r\n\r\n"), HTTP: true, SameAs: "http-short-url"},
 	}
 }
 
@@ -125,7 +127,7 @@ func c16Send(x *Exec, addr string, data []byte, cuts []int) string {
 }
 
 func checkC16Cuts(job *Job, res *Result) {
-	res.Rule = "SEQ over inputs x cuts: 27 streams (LF-terminated telnet streams must be answered like their CRLF twins) (incl. valid-then-malformed and stream-switching commands followed by further commands) x every 2-way cut (long streams: every cut within 80 bytes of a command / read-buffer boundary plus a stride), every 3-way cut for streams <= 120 bytes (thorough <= 200), byte-at-a-time for streams <= 400 bytes; distinct = distinct (stream, segmentation class)"
+	res.Rule = "SEQ over inputs x cuts: 29 streams (LF-terminated telnet streams must be answered like their CRLF twins, a 5 KB inline command like its RESP twin, a 5 KB URL like a short one) (incl. valid-then-malformed and stream-switching commands followed by further commands) x every 2-way cut (long streams: every cut within 80 bytes of a command / read-buffer boundary plus a stride), every 3-way cut for streams <= 120 bytes (thorough <= 200), byte-at-a-time for streams <= 400 bytes; distinct = distinct (stream, segmentation class)"
 	res.Assumptions = append(res.Assumptions, "each stream is replayed on a fresh connection of one server; its commands are idempotent so the state is the same for every replay", "the elapsed member of JSON replies is blanked")
 	streams := c16Streams(job.Tier)
 	caseNo := 0
